@@ -9,13 +9,14 @@ import (
 
 // FileCfg is a storage configuration for a File function.
 type FileCfg struct {
-	Kind    string `json:"kind"`             // plain | gz | gz2 (two concatenated members) | gztrunc | dir | missing | missing-parent | through-file
-	Level   int    `json:"level,omitempty"`  // gzip level for gz kinds
-	Split   int    `json:"split,omitempty"`  // gz2: where the input is split between the members
-	Cut     int    `json:"cut,omitempty"`    // gztrunc: compressed bytes kept
-	GzBytes int    `json:"gz_len,omitempty"` // informational: compressed length
-	Ext     string `json:"ext,omitempty"`    // extension without dot, e.g. fa
-	Name    string `json:"name,omitempty"`   // file name used (relative to the scratch directory)
+	Kind    string `json:"kind"`               // plain | gz | gz2 (two concatenated members) | gztrunc | dir | missing | missing-parent | through-file
+	Level   int    `json:"level,omitempty"`    // gzip level for gz kinds
+	Split   int    `json:"split,omitempty"`    // gz2: where the input is split between the members
+	Cut     int    `json:"cut,omitempty"`      // gztrunc: compressed bytes kept
+	GzBytes int    `json:"gz_len,omitempty"`   // informational: compressed length
+	Ext     string `json:"ext,omitempty"`      // extension without dot, e.g. fa
+	Name    string `json:"name,omitempty"`     // file name used (relative to the scratch directory)
+	Odd     string `json:"odd_name,omitempty"` // use this unusual base name (without extension) instead of f<n>
 }
 
 // Disk is the simulated storage: a scratch directory which the process has
@@ -46,6 +47,12 @@ func (d *Disk) Materialise(cfg *FileCfg, content []byte) (string, func()) {
 		ext = "dat"
 	}
 	base := fmt.Sprintf("f%d.%s", d.n%4, ext) // names never depend on pid/time; reuse a few names
+	if cfg.Odd != "" {
+		base = cfg.Odd + "." + ext
+		if cfg.Odd == "-" || cfg.Odd == "~" { // the bare conventional names, no extension
+			base = cfg.Odd
+		}
+	}
 	switch cfg.Kind {
 	case "plain":
 		must(os.WriteFile(base, content, 0o644))
